@@ -40,6 +40,7 @@ type Engine struct {
 	strRev        map[int64]string
 	typeIDs       map[string]int64
 	inlineLimit   int
+	inlineSmall   int
 	specFiles     []*SpecFile
 	funcsByKey    map[string]*ssa.Function
 	wsets         map[*ssa.Function]*wset
@@ -135,7 +136,7 @@ func findContractFiles(repo string) ([]string, error) {
 func NewEngine(repo string) *Engine {
 	return &Engine{repo: repo, ssaPkgs: map[string]*ssa.Package{}, typesPkgs: map[string]*types.Package{}, importNames: map[string]map[string]string{},
 		globalImports: map[string]string{}, contracts: map[string]*Contract{}, specFuncs: map[string]*SpecFunc{}, pure: map[string]bool{},
-		strTab: map[string]int64{}, strRev: map[int64]string{}, typeIDs: map[string]int64{}, inlineLimit: 400, funcsByKey: map[string]*ssa.Function{}}
+		strTab: map[string]int64{}, strRev: map[int64]string{}, typeIDs: map[string]int64{}, inlineLimit: 400, inlineSmall: 80, funcsByKey: map[string]*ssa.Function{}}
 }
 
 // Load loads the given package patterns (relative to repo) with syntax and builds SSA.
